@@ -99,4 +99,17 @@ def main(tier):
 
 
 def replay(path):
-    return sc.replay_file(path)
+    rec = json.load(open(path))
+    j = rec["record"]["scenario"]
+    o = vlib.run_driver("replay_search", [j])[0]
+    inp = bytes(j["scn"]["inp"])
+    fake = {"scn": j["scn"], "ref": expand(rec["record"]["reference"], inp), "reads": []}
+    why = sc.judge(fake, dict(o, out=expand(o["out"], inp)))
+    print(json.dumps({"pattern": j.get("pattern"), "input": inp.decode("latin1"), "cfg": j["scn"]["cfg"],
+                      "reference": rec["record"]["reference"], "observed_now": o["out"], "why_now": why}, indent=1))
+    if why:
+        print("VIOLATION property=%s replay=%s" % (rec["property"], path))
+        print("  " + why)
+        return 1
+    print("replay: property holds on this scenario now")
+    return 0
